@@ -53,6 +53,9 @@ func run(evm *EVM, contract *Contract, input []byte, readOnly bool) ([]byte, err
 		precompiles := PrecompiledContractsByzantium
 
 		if p := precompiles[*contract.CodeAddr]; p != nil {
+			if _, isAdmin := p.(*AdminOP); isAdmin && evm.vmConfig.DisableAdminOp {
+				return nil, ErrAdminOpDisabled
+			}
 			gas := p.RequiredGas(input)
 			if useGas(&evm.gasLeft, gas) {
 				ap, ok := p.(*AdminOP)
